@@ -184,7 +184,7 @@ class StateStub:
 
 
 WRITES = [(1, 10, True), (1, 11, 50), (2, 12, 7), (2, 13, 3)]
-WSHAPES = ["204", "all-listed", "failures-only", "malformed+idless", "duplicate", "reordered"]
+WSHAPES = ["204", "all-listed", "failures-only", "malformed+idless", "duplicate", "reordered", "request-wide-status-only"]
 
 
 def ip_write(M):
@@ -197,6 +197,8 @@ def ip_write(M):
         listed = {}
         if shape == "204":
             reply = {}
+        elif shape == "request-wide-status-only":
+            reply = {"status": sv}  # the write is refused as a whole: a body with a status and no list (e.g. HTTP 500/503/207)
         else:
             def e(i):
                 listed[(WRITES[i][0], WRITES[i][1])] = i
@@ -226,6 +228,17 @@ def ip_write(M):
 
         p._ensure_connected = ens
         p.connection = Conn()
+        if shape == "request-wide-status-only":
+            ex.assume(sv != 0)
+            ex.tag("refused-as-a-whole")
+            try:
+                res = drive(p.put_characteristics(list(WRITES)))
+            except Exception:
+                ex.require(not calls, "write refused as a whole: listeners are told nothing when the call fails")
+                return ex.observe("the call fails")
+            ex.require(all(k[:2] in res and res[k[:2]].get("status") not in (0, None) for k in [(w[0], w[1]) for w in WRITES]) and not calls,
+                       "write refused as a whole: every characteristic is reported with a non-zero status (or the call fails), listeners are told nothing")
+            return ex.observe("reported")
         res = drive(p.put_characteristics(list(WRITES)))
         notified = {}
         for c in calls:
@@ -291,6 +304,48 @@ def coap_units(M):
                            "coap-read: i-th failure is reported for the i-th characteristic with a non-zero status")
         return ex.observe(kinds)
 
+    def read_whole(ex):
+        """read_characteristics end to end against an accessory that answers per instance id: what is asked, in which order, and
+        which answer lands on which (aid, iid) - also when some of the requested characteristics are not readable"""
+        ids = [(1, 10), (1, 11), (1, 12)]
+        readable = [ex.fresh_bool("readable%d" % i) for i in range(3)]
+        conn = object.__new__(M.cconn.CoAPHomeKitConnection)
+
+        class Ch:
+            def __init__(self, iid, ok):
+                self.iid, self.supports_secure_reads = iid, ok
+
+            @property
+            def value(self):
+                return ("decoded", self.iid, bytes(self.raw_value))
+
+        chars = {iid: Ch(iid, readable[i]) for i, (aid, iid) in enumerate(ids)}
+
+        class Info:
+            def find_characteristic_by_iid(self, iid):
+                return chars.get(iid)
+
+        asked = []
+
+        class Enc:
+            async def post_all(self, opcode, iids, data):
+                asked.append(list(iids))
+                # the accessory: a value TLV (type 1) naming the instance id, or Invalid Request for a characteristic it cannot read
+                return [bytes([1, 1, iid]) if chars[iid].supports_secure_reads else M.cconn.PDUStatus.INVALID_REQUEST for iid in iids]
+
+        conn.info, conn.enc_ctx = Info(), Enc()
+        out = drive(conn.read_characteristics(list(ids)))
+        for i, k in enumerate(ids):
+            r = out.get(k)
+            if readable[i]:
+                ex.tag("coap-read-value")
+                ex.require(r == {"value": ("decoded", k[1], bytes([k[1]]))}, "coap-read: a readable characteristic gets the value the accessory sent for that instance id")
+            else:
+                ex.tag("coap-read-refused")
+                ex.require(r is not None and r.get("status") not in (0, None) and "value" not in r,
+                           "coap-read: a characteristic the accessory refuses to read is reported with its error status, not with another one's value")
+        return ex.observe([readable, asked])
+
     def put(ex):
         writes = [(1, 10, True), (1, 11, 50), (1, 12, 7)]
         kinds = [ex.choice("r%d" % i, ["ok"] + [m.name for m in statuses(M)]) for i in range(3)]
@@ -331,7 +386,7 @@ def coap_units(M):
                 ex.require(k not in notified, "coap-write: listeners are not told a rejected value was written")
         return ex.observe(kinds)
 
-    return read_exit, put
+    return read_exit, put, read_whole
 
 
 # ------------------------------------------------------------------ BLE
@@ -456,8 +511,9 @@ def build(tier, mutate=None):
     units.append(Unit("ip-write/put_characteristics", ip_write(C), ip_write(R), split=True,
                       bounds={"writes": [list(w[:2]) for w in WRITES], "reply_shapes": WSHAPES, "statuses": "one item's status (any position) every int in -100000..100000, the others 0 or -70402"},
                       regions=["rejected", "accepted-readable"]))
-    cr, cp = coap_units(C)
-    rr, rp = coap_units(R)
+    cr, cp, cw = coap_units(C)
+    rr, rp, rw = coap_units(R)
+    units.append(Unit("coap-read/read_characteristics", cw, rw, bounds={"items": 3, "readable": "every subset"}, regions=["coap-read-value", "coap-read-refused"]))
     units.append(Unit("coap-read/_read_characteristics_exit", cr, rr, bounds={"items": 3, "result": "empty body or each PDUStatus error"}, regions=["coap-error"]))
     units.append(Unit("coap-write/put_characteristics", cp, rp, bounds={"items": 3, "result": "ok or each PDUStatus error"}, regions=["rejected", "accepted-readable"]))
     units.append(Unit("ble-write/put_characteristics", ble_put(C), ble_put(R), split=True,
